@@ -152,9 +152,18 @@ class Journal:
         self._previous_journal: Journal | None = None
         self._hooks: list[Callable[[JournalEntry], None]] = []
         self._original_methods: dict[str, Callable] = {}
+        self._active = False
 
     def __enter__(self) -> Self:
         global _current_journal
+        if self._active:
+            # Entering again would overwrite the saved original methods and the previous
+            # journal, so that the IR classes could never be restored
+            raise RuntimeError(
+                "This Journal is already active. A Journal cannot be re-entered; "
+                "create another Journal to nest."
+            )
+        self._active = True
         self._previous_journal = _current_journal
         _current_journal = self
         self._original_methods = _wrappers.wrap_ir_classes(self)
@@ -164,6 +173,7 @@ class Journal:
         _wrappers.restore_ir_classes(self._original_methods)
         global _current_journal
         _current_journal = self._previous_journal
+        self._active = False
 
     @property
     def entries(self) -> Sequence[JournalEntry]:
